@@ -8,6 +8,7 @@ with E1 datagram faults on one slice.  After every operation the whole
 simulated memory must equal a byte-array model and the machine must have seen
 no malformed command."""
 import itertools
+import os
 import struct
 
 from mc.explore import explore, Chooser
@@ -176,7 +177,60 @@ def run_rw(params, tier, acc):
         acc.outcome("cmds<%d" % (10 ** len(str(len(sim.cmds)))))
 
 
+def run_struct_names(acc):
+    """A caller's struct file in which another struct re-uses field names of
+    `sv` (other offsets and widths): every access goes to its own struct's
+    field, whichever struct was used before."""
+    import tempfile
+    from rig.machine_control.struct_file import read_struct_file
+    txt = open(os.path.join(repo(), "rig", "boot", "sark.struct"),
+               "rb").read()
+    txt += (b"\nname = stats\nsize = 32\nbase = 0x60003000\n\n"
+            b"cpu_clk   V  0x04  %d  0\n"
+            b"p2p_addr  C  0x09  %d  0\n"
+            b"led0      v  0x0a  %d  0\n"
+            b"mem_clk   V  0x10  %d  0\n")
+    sts = read_struct_file(txt)
+    mine = {"cpu_clk": ("<I", 0x60003004), "p2p_addr": ("<B", 0x60003009),
+            "led0": ("<H", 0x6000300a), "mem_clk": ("<I", 0x60003010)}
+    ref = structs(repo())["sv"]
+    names = sorted(mine)
+    for order in itertools.permutations(("sv", "stats")):
+        sim = SimMachine(repo(), 2, 2, buffer_size=256)
+        with Session(sim, structs=sts) as s:
+            mc = s.mc
+            model = Model(sim)
+            k = 0
+            for fname in names:
+                for sname in order + order:
+                    k += 1
+                    acc.nontrivial += 2
+                    if sname == "sv":
+                        fmt, off = ref["fields"][fname][:2]
+                        fmt, addr = "<" + fmt, ref["base"] + off
+                    else:
+                        fmt, addr = mine[fname]
+                    size = struct.calcsize(fmt)
+                    val = (0x11223344 * k + 7) & ((1 << (8 * size)) - 1)
+                    model.mem[(1, 1)].write(addr, struct.pack(fmt, val))
+                    case = dict(op="write_field", struct=sname, field=fname,
+                                order=list(order))
+                    judge_op(acc, sim, model, case,
+                             lambda: mc.write_struct_field(sname, fname, val,
+                                                           1, 1))
+                    got = judge_op(acc, sim, model,
+                                   dict(case, op="read_field"),
+                                   lambda: mc.read_struct_field(sname, fname,
+                                                                1, 1))
+                    if got is not None and got != val:
+                        acc.violation(dict(kind="field_value",
+                                           op="read_field"), case,
+                                      "%s.%s read back as %r, wrote %r"
+                                      % (sname, fname, got, val))
+
+
 def run_structs(params, tier, acc):
+    run_struct_names(acc)
     sim = SimMachine(repo(), 2, 2, buffer_size=256)
     st = structs(repo())
     with Session(sim) as s:
@@ -272,7 +326,38 @@ def run_structs(params, tier, acc):
                         vcpu_fields=len(st["vcpu"]["fields"])))
 
 
+def run_sver_first(acc):
+    """The first thing a fresh controller is asked is the software version
+    of an APPLICATION core that advertises a larger buffer than the machine's
+    monitor: transfers still stay within the machine's figure."""
+    for first in (None, (0, 0, 3), (1, 1, 5)):
+        sim = SimMachine(repo(), 2, 2, buffer_size=8)
+        sim.app_buffer_size = 24
+        with Session(sim, window=2) as s:
+            mc = s.mc
+            model = Model(sim)
+            if first is not None:
+                info = mc.get_software_version(*first)
+                if info.buffer_size != 24:
+                    acc.violation(dict(kind="sver_buffer"), dict(
+                        op="sver_first", first=list(first)),
+                        "core %r advertises 24, reported %r"
+                        % (first, info.buffer_size))
+            for n in (20, 33):
+                case = dict(op="read", sver_first=list(first or []),
+                            address=0x60000001, length=n)
+                want = model.mem[(1, 0)].read(0x60000001, n)
+                judge_op(acc, sim, model, case,
+                         lambda: mc.read(0x60000001, n, 1, 0, 0), want)
+                data = pattern(n, 3)
+                model.mem[(1, 0)].write(0x60000001, data)
+                judge_op(acc, sim, model, dict(case, op="write"),
+                         lambda: mc.write(0x60000001, data, 1, 0, 0))
+            acc.nontrivial += 4
+
+
 def run_fill_link(params, tier, acc):
+    run_sver_first(acc)
     for buf in (4, 5, 7, 8, 12, 16, 256):
         sim = SimMachine(repo(), 3, 3, buffer_size=buf)
         with Session(sim) as s:
@@ -281,7 +366,9 @@ def run_fill_link(params, tier, acc):
             # fills
             for addr in (0x60001000, 0x60001001, 0x60001002, 0x60001003):
                 for size in range(0, 14):
-                    for val in (0, 0xab):
+                    for val in (0, 0xab, 0xdeadbeef):
+                        if val > 0xff and (addr % 4 or size % 4):
+                            continue     # a word only when all is aligned
                         for (x, y, p) in ((0, 0, 0), (2, 1, 3)):
                             acc.nontrivial += 1
                             if addr % 4 or size % 4:
